@@ -226,6 +226,18 @@ impl FileLoader {
         let make_err = |kind| ExternalDataError::new(file_path, kind);
         let make_io_err = |err| ExternalDataError::from_io_error(file_path, err);
 
+        // Check that the file contains the data before allocating a buffer,
+        // as the length comes from the model and may be much larger than the
+        // file.
+        let file_len = file.metadata().map_err(make_io_err)?.len();
+        let end_offset = location.offset.saturating_add(location.length);
+        if end_offset > file_len {
+            return Err(make_err(ExternalDataErrorKind::TooShort {
+                required_len: end_offset as usize,
+                actual_len: file_len as usize,
+            }));
+        }
+
         file.seek(SeekFrom::Start(location.offset))
             .map_err(make_io_err)?;
 
@@ -671,6 +683,32 @@ mod tests {
             map.insert("test_mem_loader.onnx.data".to_string(), storage);
             Ok(MemLoader::new(map))
         })
+    }
+
+    #[test]
+    fn test_file_loader_length_exceeds_file() {
+        let model_file = TempFile::new("test_file_loader_length.onnx", &[]).unwrap();
+        let data_file = TempFile::new("test_file_loader_length.onnx.data", &[1, 2, 3, 4]).unwrap();
+        let loader = FileLoader::new(model_file.path()).unwrap();
+        let path = data_file
+            .path()
+            .file_name()
+            .unwrap()
+            .to_string_lossy()
+            .to_string();
+
+        // Lengths and offsets for which allocating a buffer before reading
+        // the data would fail.
+        for (offset, length) in [(0, 1 << 62), (2, isize::MAX as u64), (u64::MAX, 8)] {
+            let err = loader
+                .load(&DataLocation {
+                    path: path.clone(),
+                    offset,
+                    length,
+                })
+                .expect_err("should not load");
+            assert!(err.to_string().contains("file too short"));
+        }
     }
 
     #[test]
